@@ -301,9 +301,11 @@ class Gen:
                 if defs and rng.random() < 0.7:
                     inp = self.reftok(rng.choice(defs), cur)
                 else:
-                    inp = rng.choice(["INDEX", "nosuch", "x.INDEX", "f1.r", ".f2", "f3.z"] if self.ge(10) else ["INDEX", "nosuch", "f1"])
+                    inp = rng.choice(["INDEX", "nosuch", "x.INDEX", "f1.r", ".f2", "f3.z"] if self.ge(10) else ["INDEX", "nosuch", "f1", "f1.z", "f2.r"])
                     if self.api and depth and "INDEX" in inp:
                         inp = "nosuch"       # INDEX cannot follow a later change of the affixes
+                if (self.ver is None or self.ver >= 6) and "/" not in inp and rng.random() < 0.12:
+                    inp += rng.choice([".z", ".z", ".r", ".m"])     # representation suffixes (.z from Version 10 on)
                 if rng.random() < 0.3:
                     lines.append(("FL", nm, inp, rng.choice(["t.lut", "tab/t1.lut", "d1/t2.lut", "d1/d2/t3.lut"])))
                 else:
